@@ -3,6 +3,7 @@
 package discovery
 
 import (
+	"net/url"
 	"github.com/prometheus/common/model"
 	"github.com/prometheus/prometheus/config"
 	"github.com/prometheus/prometheus/discovery/targetgroup"
@@ -98,7 +99,29 @@ func VHash(variant int) {
 
 func vHashSensitive() {
 	cfg := vHashCfg()
-	name := []string{"foo", "__tmp_x", "__scrape_interval__"}[zzv.Choose("which", 3)]
+	which := zzv.Choose("which", 4)
+	if which == 3 {
+		// the URL is part of the hash with its whole query: two jobs whose params differ only in
+		// the second value of a multi-valued parameter (which no label carries)
+		mkc := func(second string) *config.ScrapeConfig {
+			c := vHashCfg()
+			c.Params = url.Values{"collect[]": {"cpu", second}}
+			return c
+		}
+		g := &targetgroup.Group{Source: "src", Targets: []model.LabelSet{{model.AddressLabel: "h1:80"}}}
+		r1, err1 := targetsFromGroup(g, mkc("mem"))
+		r2, err2 := targetsFromGroup(g, mkc("disk"))
+		zzv.Assert("C15.sensitive.noerror", err1 == nil && err2 == nil && len(r1) == 1 && len(r2) == 1)
+		if err1 != nil || err2 != nil || len(r1) != 1 || len(r2) != 1 {
+			return
+		}
+		zzv.Cover("hash.sensitive.query")
+		zzv.Assert("C15.hash.sensitive.to.url.query", zzv.Feasible(r1[0].ShardTarget.Hash != r2[0].ShardTarget.Hash))
+		zzv.Observe("sensitive", "query")
+		zzv.Cover("hash.end")
+		return
+	}
+	name := []string{"foo", "__tmp_x", "__scrape_interval__"}[which]
 	v1, v2 := zzv.Str("v1"), zzv.Str("v2")
 	zzv.Assume(v1 != "" && v2 != "" && v1 != v2)
 	mk := func(v string) *targetgroup.Group {
